@@ -1,7 +1,7 @@
 (* C01 - Structured control flow is lowered to gotos without changing behaviour.
    This file contains only the statements; proofs live in Tr.v / Check.v / C01Proofs.v. *)
 From Coq Require Import List ZArith.
-From Pory Require Import Lexer Ast Parser Emitter Sem2 SemTgt Tr Check C01Proofs ParseWf ProgWf RenderSim RenderCheck LabelSim C01Final.
+From Pory Require Import Lexer Ast Parser Emitter Sem2 SemTgt Tr Check C01Proofs ParseWf ProgWf RenderSim RenderCheck LabelSim C01Final Worklist C01Main.
 
 (* PARTIAL (named so): source semantics = chunk-graph semantics, for every abstract game (St, exec, observers),
    every body, every run length, on every chunk graph that the verified relation checker accepts
@@ -121,3 +121,40 @@ Theorem label_lookup_agrees_holds :
     label_lookup_agrees St exec flag_set trainer_beaten cmp_var cmp_var_value case_matches G brkT orgT (fun l => fl_body l body Kstop).
 Proof. exact LabelSim.label_lookup_agrees_holds. Qed.
 Print Assumptions label_lookup_agrees_holds.
+
+
+(* ---------- lemma 1: the worklist establishes the translation relation (no validator) ---------- *)
+(* For every source that passes the executable source check (a property of the parser's output: switches well formed,
+   every 'if' has a first condition, loop / switch tags pairwise distinct), the chunk graph the FIFO worklist ends with
+   is related to the body by tr_block, all chunk ids are non-negative and distinct. *)
+Theorem worklist_establishes_tr_block :
+  forall body w, emit_graph body = Ok w -> src_ok body ->
+    tr_block (finals w) (brk w) (org w) body 0 (-1) /\
+    (forall i c, get_chunk (finals w) i = Some c -> (0 <= i)%Z) /\
+    NoDup (ids (finals w)).
+Proof. exact Worklist.worklist_establishes_tr_block. Qed.
+Print Assumptions worklist_establishes_tr_block.
+
+(* ---------- C01, final form: no premise about the chunk graph ---------- *)
+(* lemma 1 (above) + lemma 2 (graph_sim) + lemma 3 (render_step) + label lookup; the remaining executable premises concern
+   the rendered instruction list (wf_render) and the user labels (labels_okb); src_okb and scoped are properties of the
+   parser's output (scoped is a theorem: accepted_bodies_are_scoped). *)
+Theorem emit_script_correct :
+  forall (St : Type) (exec : cmd -> St -> stepres St) (flag_set trainer_beaten : text -> St -> bool)
+         (cmp_var cmp_var_value : text -> text -> St -> comparison) (case_matches : text -> text -> St -> bool)
+         (mp : option text) (tl : list text) (name : text) (glob optimize : bool) (body : list stmt)
+         (w : wst) (code : list instr),
+    emit_graph body = Ok w ->
+    emit_script mp tl name glob optimize body = Ok code ->
+    src_okb body = true ->
+    wf_render mp name (finals w) (order_of optimize (finals w)) code = true ->
+    labels_okb body (finals w) = true ->
+    scoped None None body ->
+    (forall n s, exists m,
+        run sfinal (sstep St exec flag_set trainer_beaten cmp_var cmp_var_value case_matches (fun l => fl_body l body Kstop)) n (enter body Kstop) s =
+        run (@tfinal) (tstep St exec flag_set trainer_beaten cmp_var cmp_var_value case_matches code) m (jump code name) s) /\
+    (forall m s, exists n,
+        res_le (run (@tfinal) (tstep St exec flag_set trainer_beaten cmp_var cmp_var_value case_matches code) m (jump code name) s)
+               (run sfinal (sstep St exec flag_set trainer_beaten cmp_var cmp_var_value case_matches (fun l => fl_body l body Kstop)) n (enter body Kstop) s)).
+Proof. exact C01Main.emit_script_correct. Qed.
+Print Assumptions emit_script_correct.
